@@ -80,12 +80,18 @@ type scen struct {
 	F        int    `json:"f"`
 	// Conc: --hq-batch-concurrency (0 = 1): that many gets in flight at once, each for a share of the batch
 	Conc int `json:"hq_batch_concurrency,omitempty"`
+	// Outage: crawl HQ answers the first Outage add (and delete) calls with 503, whatever else happens: a long run of
+	// failures on one batch (the faults chosen under F are short runs)
+	Outage int `json:"outage_calls,omitempty"`
 }
 
 func (s *scen) name() string {
 	n := fmt.Sprintf("%s outlinks=%s workers=%d batch=%d", s.Queue, s.Outlinks, s.Workers, s.Batch)
 	if s.Conc > 1 {
 		n += fmt.Sprintf(" get-concurrency=%d", s.Conc)
+	}
+	if s.Outage > 0 {
+		n += fmt.Sprintf(" outage=%d-calls", s.Outage)
 	}
 	return n
 }
@@ -111,6 +117,8 @@ type fakeHQ struct {
 	eligible     int // fault-eligible calls so far
 	eligibleGets int
 	getLatency   time.Duration // virtual time one get takes
+	outage       int           // the first that many add/delete calls are answered 503
+	writes       int
 	deleted      []string
 	addOK        [][]gocrawlhq.URL // payloads of successful adds
 }
@@ -119,6 +127,21 @@ var answers = []string{"ok", "500", "503", "reset", "timeout-after-commit"}
 
 func (h *fakeHQ) RoundTrip(req *http.Request) (*http.Response, error) {
 	op := req.Method
+	if err := req.Context().Err(); err != nil {
+		return nil, err // like a real transport: a request whose context is over is not sent
+	}
+	if op != "GET" {
+		h.mu.Lock()
+		h.writes++
+		down := h.writes <= h.outage
+		if down {
+			h.calls = append(h.calls, call{Op: op, Answer: "503 (outage)"})
+		}
+		h.mu.Unlock()
+		if down {
+			return &http.Response{StatusCode: 503, Status: "503", Body: io.NopCloser(bytes.NewReader(nil)), Header: http.Header{}, Request: req}, nil
+		}
+	}
 	if h.getLatency > 0 && op == "GET" {
 		// With --hq-batch-concurrency > 1 Zeno polls an empty feed without pausing (getURLs swallows "feed is
 		// empty"): a round trip that takes no time would keep the virtual clock from ever advancing
@@ -240,7 +263,7 @@ func scenario(s *scen) *vsched.Scenario {
 		reactor.VerifReset()
 		hq.VerifReset()
 		lq.VerifC15Reset()
-		o = &obs{hq: &fakeHQ{}}
+		o = &obs{hq: &fakeHQ{outage: s.Outage}}
 		if s.Conc > 1 {
 			o.hq.getLatency = 100 * time.Millisecond
 		}
@@ -504,6 +527,10 @@ func scenarios(tier string) []scen {
 		if set == "three" || set == "timed" {
 			out = append(out, scen{Queue: "hq", Outlinks: set, Workers: 2, Batch: 2, P: P, F: F, Conc: 2})
 		}
+	}
+	// a long run of failures on the first batch (six and nine calls in a row), no other fault
+	for _, n := range []int{6, 9} {
+		out = append(out, scen{Queue: "hq", Outlinks: "three", Workers: 1, Batch: 3, P: 0, F: 0, Outage: n})
 	}
 	return out
 }
